@@ -924,3 +924,8 @@ M("C12.grpc_len_little_endian_slip", ["C12"], "emitter/otlp/src/client.rs",
 M("C12.grpc_compressed_flag_unset", ["C12"], "emitter/otlp/src/client.rs",
   "                                    .with_content_frame([1, len[0], len[1], len[2], len[3]])",
   "                                    .with_content_frame([0, len[0], len[1], len[2], len[3]])", "C12.R7")
+
+M("C08.no_backoff_wait_before_retry", ["C08"], "batcher/src/lib.rs",
+  "                                            wait(self.retry_delay.next()).await;\n\n", "", "C08.R2:retry-budget")
+M("C08.backoff_future_not_awaited", ["C08"], "batcher/src/lib.rs",
+  "                                            wait(self.retry_delay.next()).await;\n", "                                            let _ = wait(self.retry_delay.next());\n", "C08.R2:retry-budget")
